@@ -121,6 +121,22 @@ def run_one(chk, sseed, directed=None):
                     extra_store[str(PurePosixPath(f"dists/{cn}/{hdir}/by-hash/{alg}") / nm)] = (upstream.blob(good, size), cs["date"])
             kinds.append((field, shape))
         cs["hostile"] = hostile
+        # hostile header fields of the Release file (everything the upstream controls), with the optional features that
+        # derive paths from repository data switched on (dist-upgrader files are named after the codename)
+        if rng.random() < 0.6 or directed == "header":
+            hh = {}
+            for fld in rng.sample(["Codename", "Suite", "Origin", "Label", "Version", "Description", "Changelogs", "Signed-By"], rng.randint(1, 4)):
+                shape, nm = hostile_names(rng, w.sb, url, cn, 1)[0]
+                hh[fld] = nm
+                kinds.append(("header:" + fld, shape))
+            cs["hostile_header"] = hh
+        if rng.random() < 0.5 or directed == "header":
+            w.lines = w.lines + [f"mirror_dist_upgrader {url}"]
+            w.sb.write_config(w.lines, w.settings)
+            base_cn = cn.split("-", 1)[0]
+            cs["dist_upgrader"] = {f"main/dist-upgrader-all/current/{base_cn}.tar.gz": "tarball", f"main/dist-upgrader-all/current/{base_cn}.tar.gz.gpg": "sig",
+                                   "main/dist-upgrader-all/current/ReleaseAnnouncement": "text"}
+            chk.count("scenarios_with_dist_upgrader")
         # hostile Packages / Sources entries
         for comp, cp in cs["components"].items():
             for arch, pkgs in cp.get("binaries", {}).items():
@@ -172,7 +188,8 @@ def run_one(chk, sseed, directed=None):
         before = w.sb.decoy_state()
         allowed = [os.path.normpath(runner.skel_dir(w.sb, url)), os.path.normpath(runner.mirror_dir(w.sb, url)),
                    os.path.normpath(w.sb.var)]
-        res = run_e2e.execute(w.sb, [repo], {url: store}, {}, vloop.RandomChooser(rng.randrange(1 << 30)))
+        res = run_e2e.execute(w.sb, [repo], {url: store}, {}, vloop.RandomChooser(rng.randrange(1 << 30)), catch_all=True)
+        chk.count("traversal_requests_served", getattr(res.handler, "catch_all_served", 0))
         replay = {"scenario_seed": sseed, "directed": directed, "lines": w.lines, "hostile_kinds": kinds,
                   "hostile_release": hostile}
         bad = []
@@ -280,6 +297,7 @@ def run(chk, tier, rng):
     for i in range(6):
         run_one(chk, f"C06-corpus-hash-{chk.seed}-{i}", directed="hash-field")
         run_one(chk, f"C06-corpus-mixed-{chk.seed}-{i}", directed="mixed")
+        run_one(chk, f"C06-corpus-header-{chk.seed}-{i}", directed="header")
     for i in range(n):
         run_one(chk, f"C06-{chk.seed}-{i}")
     chk.assumptions += ["S2: no symlinks inside skel/mirror (lexical normalisation = resolution)",
